@@ -93,7 +93,7 @@ func init() {
 		Assumptions: []string{A1, A3, A4},
 		Run: func(c *rules.Ctx) {
 			obPanicRun(c, "C12.1")
-			ob2 := c.R.Ob("C12.2", "sumcheck/S1", "every type switch over a closed sum on the run path is exhaustive (a panicking default is unreachable, no kind silently ignored)", 15)
+			ob2 := c.R.Ob("C12.2", "sumcheck/S1", "every type switch over a closed sum on the run path is exhaustive (a panicking default is unreachable, no kind silently ignored)", 6)
 			c.S1(ob2, selPkgs(map[string]bool{relInterp: true}, nil, relInterp))
 			ob1b := c.R.Ob("C12.1b", "ctrl/one-per-item", "the allotment function produces exactly one portion per item on every non-error path (callers index the shares by item)", 3)
 			c.OneElementPerIteration(ob1b, relInterp, "(*programState).makeAllotment")
